@@ -150,6 +150,14 @@ structure Conn where
   connAt : Int := 0                  -- start of the ping ticker
 deriving DecidableEq, Repr
 
+/-- A `create-publisher` / `create-subscriber` whose media-server call has not
+returned yet.  The handling goroutine of connection `conn` is blocked in it. -/
+structure Pend where
+  conn : Nat
+  sid : Nat
+  isPub : Bool
+deriving DecidableEq, Repr
+
 structure State where
   now : Int := 0
   nextSid : Nat := 1                 -- `ProxyServer.sid` + 1
@@ -158,11 +166,14 @@ structure State where
   clients : List Obj := []           -- `ProxyServer.clients` (global id → object)
   mcuOpen : List Obj := []           -- objects open at the media server
   conns : List Conn := []
+  pending : List Pend := []          -- media-server calls in flight
 deriving DecidableEq, Repr
 
 /-! ## Messages, ops, outputs -/
 
-inductive Outcome | ok | fail | timeout
+/-- Answer of the media server (a parameter of the step).  `late`: no answer
+yet — it arrives with a later `release` op. -/
+inductive Outcome | ok | fail | timeout | late
 deriving DecidableEq, Repr
 
 inductive Hello
@@ -205,6 +216,8 @@ inductive Op
   | expire
   | mcuDown
   | mcuClose (id : Nat)
+  /-- the media server answers the call that connection `c` is blocked in -/
+  | release (c : Nat) (o : Outcome)
 deriving DecidableEq, Repr
 
 /-- Server → client messages (canonical). -/
@@ -379,16 +392,63 @@ def removeOwned (isPub : Bool) (id : Nat) (s : Sess) : Sess :=
   if isPub then { s with pubs := s.pubs.filter (fun y => !(y == id)) }
   else { s with subs := s.subs.filter (fun y => !(y == id)) }
 
+/-- `session.StorePublisher` + `s.StoreClient` (resp. subscriber) for object `id`. -/
+def storeObj (st : State) (sid : Nat) (isPub : Bool) : State :=
+  let id := st.nextObj
+  let o : Obj := { id := id, isPub := isPub, owner := sid }
+  { st with nextObj := id + 1
+            clients := st.clients ++ [o]
+            mcuOpen := st.mcuOpen ++ [o]
+            sessions := updSess sid (addOwned isPub id) st.sessions }
+
 def createObj (st : State) (c sid : Nat) (isPub : Bool) : Outcome → State × Outs
-  | .ok =>
-    let id := st.nextObj
-    let o : Obj := { id := id, isPub := isPub, owner := sid }
-    ({ st with nextObj := id + 1
-               clients := st.clients ++ [o]
-               mcuOpen := st.mcuOpen ++ [o]
-               sessions := updSess sid (addOwned isPub id) st.sessions },
-     [(c, .created id)])
+  | .ok => (storeObj st sid isPub, [(c, .created st.nextObj)])
+  | .late => ({ st with pending := st.pending ++ [{ conn := c, sid := sid, isPub := isPub }] }, [])
   | o => (st, errOut c (outcomeErr o))
+
+/-- `Close` cancels the session context before it clears the tables, the store
+functions refuse a cancelled session under the lock that the clear functions
+take, and `processCommand` then removes the id again and closes the object. -/
+def closeCancelsBeforeClear : Bool :=
+  match closeCalls.idxOf? "closeFunc", closeCalls.idxOf? "clearPublishers", closeCalls.idxOf? "clearSubscribers" with
+  | some a, some b, some c => decide (a < b) && decide (a < c)
+  | _, _, _ => false
+
+def lateStoreGuard (isPub : Bool) : Bool :=
+  closeCancelsBeforeClear &&
+  (if isPub then storePublisherRefusesClosed && createPublisherUndoesRefused && (storePublisherLock == clearPublishersLock)
+   else storeSubscriberRefusesClosed && createSubscriberUndoesRefused && (storeSubscriberLock == clearSubscribersLock))
+
+/-- The media server's answer to a pending creation arrives: the rest of
+`create-publisher` / `create-subscriber` runs, for a session that may have
+ended in the meantime.  `guard` = the store functions refuse a closed session
+and the command handler undoes the creation. -/
+def finishLateWith (guard : Bool) (st : State) (p : Pend) : Outcome → State × Outs
+  | .ok =>
+    match findSess st p.sid with
+    | some _ =>
+      let st1 := storeObj st p.sid p.isPub
+      (st1, sendSess st1 p.sid (.created st.nextObj))
+    | none =>
+      if guard then
+        -- refused by the closed session: removed from the table again and closed
+        ({ st with nextObj := st.nextObj + 1 }, [])
+      else
+        -- (the code before the repair) stored although its session is gone
+        let o : Obj := { id := st.nextObj, isPub := p.isPub, owner := p.sid }
+        ({ st with nextObj := st.nextObj + 1, clients := st.clients ++ [o], mcuOpen := st.mcuOpen ++ [o] }, [])
+  | .late => ({ st with pending := st.pending ++ [p] }, [])
+  | o => (st, sendSess st p.sid (.err (outcomeErr o)))
+
+def finishLate (st : State) (p : Pend) (o : Outcome) : State × Outs :=
+  finishLateWith (lateStoreGuard p.isPub) st p o
+
+def isBusy (st : State) (c : Nat) : Bool := st.pending.any (·.conn == c)
+
+def doRelease (st : State) (c : Nat) (o : Outcome) : State × Outs :=
+  match st.pending.find? (·.conn == c) with
+  | none => (st, [])
+  | some p => finishLate { st with pending := st.pending.filter (fun q => !(q.conn == c)) } p o
 
 def ownerCheck (isPub : Bool) : Bool :=
   if isPub then deletePublisherOwnerCheck else deleteSubscriberOwnerCheck
@@ -498,11 +558,15 @@ def doMcuClose (id : Nat) (st : State) : State × Outs :=
           sessions := updSess s.sid (removeOwned o.isPub id) st1.sessions }
         (st2, sendTo st2 s.client (.evObj (if o.isPub then "publisher-closed" else "subscriber-closed") id))
 
+/-- Ops of a connection whose handler is blocked in the media server are not
+part of the model (its messages would queue up behind the call): no-ops. -/
 def step (cfg : Cfg) (st : State) : Op → State × Outs
   | .connect c =>
+    if isBusy st c then (st, []) else
     ({ st with conns := st.conns.filter (fun x => !(x.id == c)) ++ [{ id := c, connAt := st.now }] }, [])
-  | .msg c m => doMsg cfg st c m
+  | .msg c m => if isBusy st c then (st, []) else doMsg cfg st c m
   | .close c =>
+    if isBusy st c then (st, []) else
     match findConn st c with
     | none => (st, [])
     | some x =>
@@ -517,6 +581,7 @@ def step (cfg : Cfg) (st : State) : Op → State × Outs
   | .expire => closeAll ((st.sessions.filter (isExpired st)).map (·.sid)) st
   | .mcuDown => mcuDownAll (st.sessions.map (·.sid)) st
   | .mcuClose id => doMcuClose id st
+  | .release c o => doRelease st c o
 
 def run (cfg : Cfg) (st : State) : List Op → State
   | [] => st
